@@ -776,6 +776,20 @@ def _c05_extra_all(ctx):
     """the whole-application race run (harness/conc.go), then the concreq sessions through the same -race binary"""
     cov = ctx["ev"]["coverage"]
     line_rule, line_evals = cov.get("rule"), cov.get("evaluations")
+    # A shared sync.Map / sync.Pool is no data race (documented as safe for concurrent use, Props/C05
+    # `synchronisedContainers`), but it carries state from one request to the next: whether ISOLATION survives it is
+    # decided by the concurrent correspondence, which then runs at thorough depth whatever tier was asked for.
+    try:
+        import os, re
+        gen = open(os.path.join(ctx["ROOT"], "lean", "Flamego", "Gen", "ConcFacts.lean")).read()
+        body = gen[gen.index("def libraryCallsOnShared"):]
+        body = body[:body.index("]\n")] if "]\n" in body else body
+        stateful = sorted(set(re.findall(r'callee := "(\(\*sync\.(?:Map|Pool)\)\.\w+)"', body)))
+    except Exception:
+        stateful = []
+    if stateful:
+        cov["synchronised_shared_containers"] = {"calls": stateful, "consequence": "the concurrent runs were made at thorough depth"}
+        ctx = dict(ctx, tier="thorough")
     try:
         v = _c05_extra(ctx)      # overwrites evaluations / distinct_nontrivial / rule with the counts of the race run
     except SystemExit:
